@@ -60,6 +60,19 @@ CHECKS["C08"] = dict(
     text="At random cuts of seeded entry streams a snapshot is saved by a real rsm.StateMachine (regular and concurrent, with and without compression) and recovered into a fresh or a lagging instance, which then applies the rest of the stream next to the uninterrupted instance; TLC requires the recovered projected state (user data, sessions incl. LRU order, membership, index, term) to equal the saved one and every later state/result of the twin to equal the specification's fold of the log.",
     note=RSM_NOTE + " Compaction-covered-by-snapshot and snapshot catch-up of lagging followers are checked at protocol level by the rsim traces of C02 (CanCompact / InstallSnapshot conformance); on-disk state machines are not driven yet.")
 
+LS_NOTE = ("Trusted: TLC; the lssim driver (harness/logdb/lssim_test.go) and the lni/vfs strict in-memory file system "
+           "(crash = unsynced data dropped at a chosen FS operation; no torn single write); Pebble's and Tan's internals are exercised, not modelled.")
+CHECKS["C09"] = dict(
+    category="model_checking", design_ref="5 C09", engine="tlc+lssim",
+    technique="TLA+ spec (LogStore.tla) as the oracle; TLC trace validation of operation sequences executed on the real log stores (sharded Pebble plain/batched, Tan regular/multiplexed)",
+    text="LogStore.tla defines ReadRaftState / IterateEntries (contiguity, logical end, size limit) / GetSnapshot as functions of the logical store state; TLC recomputes the full query panel after every operation of seeded sequences over three replicas sharing a store (two in the same partition / multiplexed db): appends, overwrites of a suffix with a newer term, hard state, restored and local snapshot records, entry removal, node data removal and re-use, close/reopen, batch size 4 and 48.",
+    note=LS_NOTE + " One recorded finding (multiplexed Tan, RemoveNodeData) is matched by its structural signature and reported as KNOWN-FINDING.")
+CHECKS["C10"] = dict(
+    category="fault_enumeration", design_ref="5 C10", engine="tlc+lssim",
+    technique="crash-point and I/O-error injection on the real log stores, recovered state judged by TLC against LogStore.tla",
+    text="Saves are interrupted at a chosen file-system operation (everything unsynced before it is dropped), the store is reopened and TLC requires every replica to show either the state before or the state after the interrupted save, and every earlier acknowledged save; for the Pebble-backed store an error is injected at each KV call of a save, which must then fail or be completely readable.",
+    note=LS_NOTE + " Crash points are sampled (operation 1..40 of a save), not enumerated per save; Tan I/O-error injection at FS level is not done (Tan panics in a goroutine).")
+
 NOT_APPLICABLE = {
     "C13": "encode/decode fidelity and size arithmetic of hand-written codecs over the numeric input space: no state/transition structure for a TLA+ specification to describe (DESIGN.md section 6)",
 }
@@ -115,6 +128,8 @@ def main():
              "kind_free_text": "TLC exhaustive model checking of MCRaft + TLC trace validation (RaftTrace) of executions of the real internal/raft recorded by the rsim harness"},
             {"name": "tlc+smsim", "path": "/verif/lib/rsmchecks.py", "serves_properties": ["C05", "C08", "C07"],
              "kind_free_text": "TLC model checking of MCRSM + TLC trace validation (RSMTrace) of real rsm.StateMachine instances driven by harness/rsm/smsim_test.go"},
+            {"name": "tlc+lssim", "path": "/verif/lib/logstore.py", "serves_properties": ["C09", "C10"],
+             "kind_free_text": "TLC trace validation (LogStoreTrace) of the real log stores driven by harness/logdb/lssim_test.go incl. crash and I/O-error injection"},
             {"name": "tlc+elsim", "path": "/verif/lib/c19.py", "serves_properties": ["C19"],
              "kind_free_text": "TLC model checking of MCEntryLog + TLC trace validation (EntryLogTrace) of the real entryLog/LogReader driven by harness/logdb/elsim_test.go"},
         ],
